@@ -142,7 +142,17 @@ impl Compile {
 
     fn run_on_single_file(&self, source: &PathBuf, destination: &PathBuf) -> Result<()> {
         let grammar = fs::read_to_string(source)?;
-        let source_header = format!("{}\n{}", generate_source_header(&grammar), self.prefix);
+        // The prefix gets its own checksum line: a destination generated with a different prefix
+        // (in particular a longer one that merely starts with the current prefix) must not be
+        // mistaken for an up-to-date file.
+        let prefix_crc =
+            crc::Crc::<u32>::new(&crc::CRC_32_ISO_HDLC).checksum(self.prefix.as_bytes());
+        let source_header = format!(
+            "{}// CRC-32/ISO-HDLC of the prefix: {:08x}\n\n{}",
+            generate_source_header(&grammar),
+            prefix_crc,
+            self.prefix
+        );
         if let Ok(f) = File::open(destination) {
             let mut existing_header = String::new();
             if f.take(source_header.len() as u64)
